@@ -172,11 +172,32 @@ def simulate(workdir, constants, num, depth, seed, timeout=900):
     behs = []
     for f in sorted(glob.glob(os.path.join(simdir, 'b*'))):
         states = tlaval.parse_sim_file(f)
-        steps = [tlaval.to_json(s['act']) for s in states[1:]]
+        steps = [a for a in (tlaval.to_json(s['act']) for s in states[1:]) if a.get('name') != 'Noop']
         if steps:
             behs.append(steps)
     shutil.rmtree(simdir, ignore_errors=True)
     return behs
+
+
+def tours(workdir, constants, timeout=1500):
+    """Exhaustive TLC run that prints every distinct state once with a shortest path, and the transaction alphabet.
+    Returns (paths, alphabet, states, transitions): paths = list of lists of act dicts."""
+    cfg = os.path.join(workdir, 'tour.cfg')
+    write_cfg(cfg, 'Spec', constants, (), ['TourDump', 'AlphabetDump'], view='StateView')
+    rc, out, wall = run_tlc(workdir, 'MC.tla', 'tour.cfg', workers=NCPU, timeout=timeout, heap='16g')
+    err = tlc_failed(out)
+    if err:
+        raise Inconclusive('tour generation failed: %s\n%s' % (err, out[-2000:]))
+    gen, dist, depth = parse_mc_summary(out)
+    paths, alphabet = [], []
+    for m in re.finditer(r'^<<"(TOUR|ALPHABET)", "(.*)">>$', out, flags=re.M):
+        js = json.loads('"' + m.group(2) + '"')
+        val = json.loads(js)
+        if m.group(1) == 'TOUR':
+            paths.append(val)
+        else:
+            alphabet = val
+    return paths, alphabet, dist, gen
 
 
 # ---------------------------------------------------------------------------------------------
